@@ -258,12 +258,86 @@ fn sr_case() -> impl Strategy<Value = SrCase> {
         })
 }
 
+/// One `Vm` value (and therefore one lazily filled cache) used for two executions with different solution
+/// indices: each read must ask for the contract of the solution it is executed for.
+#[derive(Clone, Debug, Hash, Serialize, Deserialize)]
+pub struct ReuseCase {
+    pub post: bool,
+    pub key: Vec<i64>,
+    pub first: usize,
+    pub second: usize,
+    pub share_cache_only: bool,
+}
+
+fn oracle_reuse(rc: &ReuseCase, obs: &mut Obs) -> Result<(), Violation> {
+    use essential_vm::{Access, GasLimit, Vm};
+    let sols: Vec<MSolution> = (0..3u8)
+        .map(|i| MSolution {
+            contract: [0x10 + i; 32],
+            predicate: [0x20 + i; 32],
+            data: vec![],
+            mutations: vec![],
+        })
+        .collect();
+    let real = Arc::new(crate::real::to_real_solutions(&sols));
+    let op = if rc.post { PKRNG } else { KRNG };
+    let mut prog: Vec<MOp> = vec![PUSH(8), ALOC, POP];
+    prog.extend(rc.key.iter().map(|w| PUSH(*w)));
+    prog.extend([PUSH(rc.key.len() as i64), PUSH(1), PUSH(0), op]);
+    let ops = crate::real::to_real_ops(&prog);
+    let log = Arc::new(Log::default());
+    let views = crate::doubles::Views::from_spec(&StateSpec::default(), Some(log.clone()));
+    let mut vm = Vm::default();
+    let mut expected = Vec::new();
+    for ix in [rc.first, rc.second] {
+        if rc.share_cache_only {
+            // a fresh machine that shares only the cache with the previous one
+            let cache = vm.cache.clone();
+            vm = Vm { cache, ..Default::default() };
+        } else {
+            vm.pc = 0;
+            vm.stack = Default::default();
+            vm.memory = Default::default();
+        }
+        let r = crate::engine::no_panic("Vm::exec_ops", || {
+            vm.exec_ops(&ops, Access::new(real.clone(), ix as u16), &views, &|_: &essential_asm::Op| 1u64, GasLimit::UNLIMITED)
+        })?;
+        ensure!(r.is_ok(), "sr:reuse-failed", "read failed on a reused machine: {:?}", r.err().map(|e| e.to_string()));
+        expected.push(sols[ix].contract);
+    }
+    let reqs = log.reqs.lock().unwrap().clone();
+    ensure!(reqs.len() == 2, "sr:request-count", "expected two requests, saw {}", reqs.len());
+    for (i, r) in reqs.iter().enumerate() {
+        ensure!(
+            r.contract == expected[i] && r.post == rc.post && r.key == rc.key,
+            "sr:wrong-contract",
+            "execution {i} (solution {}): asked contract {:02x}.. post={} key {:?}, expected contract {:02x}..",
+            [rc.first, rc.second][i],
+            r.contract[0],
+            r.post,
+            r.key,
+            expected[i][0]
+        );
+    }
+    obs.nontrivial_if(rc.first != rc.second);
+    Ok(())
+}
+
 pub fn property() -> Property {
     Property {
         id: "C11",
         rule: "generated single state-read executions: op in {KeyRange, KeyRangeExtern, PostKeyRange, PostKeyRangeExtern} x key length 0..6 (and 4085) x key-length operand (correct or index-like) x count (0..5, boundary words, random) x memory length (exact fit, one short, roomy, 0, 10240, small) x address (0, small, index-like) x answers (scripted lists: ragged / empty values / fewer or more than requested; map-backed views with different contents per view and contract; scripted errors; failing contracts). Oracle: exactly one recorded request with the right view, contract (solved predicate's or the 4 popped words), key and count; memory and stack equal RefVm's independently computed layout (pairs then values, everything else unchanged, length unchanged); misfit/bad operands => error and no request; state error payload unchanged. Non-trivial = at least one value written and (ragged lengths, non-zero address or count != number returned), or a state error.",
         assumptions: vec!["RefVm implements the documented [addr,len]-pairs-then-values layout independently"],
         health: vec![("sr.request_and_layout", "values-written", 150), ("sr.request_and_layout", "state-error", 30)],
-        subs: vec![prop_sub("sr.request_and_layout", 80_000, 1_500_000, |_| sr_case(), oracle)],
+        subs: vec![
+            prop_sub(
+                "sr.machine_reuse",
+                4_000,
+                40_000,
+                |_| (any::<bool>(), proptest::collection::vec(-2i64..3, 0..3), 0usize..3, 0usize..3, any::<bool>()).prop_map(|(post, key, first, second, share_cache_only)| ReuseCase { post, key, first, second, share_cache_only }),
+                oracle_reuse,
+            ),
+            prop_sub("sr.request_and_layout", 80_000, 1_500_000, |_| sr_case(), oracle),
+        ],
     }
 }
